@@ -69,6 +69,16 @@ Accept(c) ==
                 "raw_from_btreemap", "raw_collect"} -> {"Ok"}
     [] c.c \in {"sampled_new", "sampled_with_samples"} -> {"Ok"}
 
+\* Construction from an ORDERED source is a history too: the items are put in source order, so the
+\* cache holds them most-recent-first in REVERSE source order, with capacity max(n, 1) (C06/C17:
+\* the order does not depend on any hash map).  Sources whose own iteration order is unspecified
+\* (HashSet, HashMap, BinaryHeap) are not constrained.  The harness builds from the items
+\* (1,10), (2,20), ..., (n, 10n) and logs the keys most-recent-first plus cap().
+OrderedSources == {"raw_from_vec", "raw_from_iter_nohint", "raw_from_slice", "raw_from_mut_slice", "raw_from_array",
+                   "raw_from_vecdeque", "raw_from_linkedlist", "raw_from_btreeset", "raw_from_btreemap", "raw_collect"}
+ExpectedOrder(n) == [i \in 1..n |-> n + 1 - i]
+OrderOK(c, order, cap) == c.c \in OrderedSources => order = ExpectedOrder(c.n) /\ cap = (IF c.n = 0 THEN 1 ELSE c.n)
+
 Grid ==
        [c : {"raw_new", "raw_with_hasher", "raw_with_cb", "raw_with_cb_and_hasher", "arc_new", "arc_builder", "2q_new"}, n : Sizes]
   \cup [c : {"slru_new", "slru_builder", "slru_builder_setters"}, a : Sizes, b : Sizes]
